@@ -18,6 +18,8 @@ descriptor = {
 
 import itertools
 
+import os
+
 import numpy as np
 
 TWO = ("Z2Z2", "U1U1")
@@ -189,6 +191,16 @@ def build(desc):
             for c, ixd in zip(s, desc["ix"])
         )
         arr = fill(shape)  # always consume values, so dropping does not renumber
+        layout = desc.get("layout") or os.environ.get("VERIF_LAYOUT", "")
+        if "fortran" in layout and arr.ndim >= 2:
+            arr = np.asfortranarray(arr)            # same values, column-major memory
+        if "strided" in layout and arr.ndim >= 1 and arr.size:
+            big = np.zeros(tuple(2 * d for d in arr.shape), dtype=arr.dtype)
+            view = big[tuple(slice(None, None, 2) for _ in arr.shape)]
+            view[...] = arr
+            arr = view                              # a non-contiguous view into a larger buffer
+        if "readonly" in layout:
+            arr.setflags(write=False)               # any hidden write into an operand's buffer raises
         if k not in drop:
             blocks[tuple(py_charge(sym, c) for c in s)] = arr
     kwargs = {}
